@@ -980,6 +980,7 @@ float GetBufFloat(int &index, const unsigned char *buf, float def) {
 double GetBuf3ByteDouble(double precision, int &index, const unsigned char *buf, double def) {
   int32_t vl = GetBuf<int32_t>(3, index, buf);
   if (vl==0x007fffff) return def;
+  if (vl&0x00800000) vl-=0x01000000; // sign extend the 24 bit value
 
   return vl * precision;
 }
